@@ -228,16 +228,43 @@ Section Bridge.
     apply (f_equal (@length N)) in Hs. rewrite skipn_length in Hs. cbn in Hs. lia.
   Qed.
 
+  (* the regenerated statements of the loop, evaluated on those variables *)
+  Lemma wb_bexpr_eval b bl io oo c nb i :
+    eval (wb_env b bl io oo c nb i) wb_bexpr = (U64, Z.of_N (c mod two64), true).
+  Proof. unfold wb_env, wb_bexpr, two64. evaluate. repeat f_equal; lia. Qed.
+
+  Lemma wb_reset b bl io oo c nb i :
+    set (wb_env b bl io oo c nb i) V_INOFF U64 0 = (wb_env b bl 0 oo c nb i, true) /\
+    set (wb_env b bl 0 oo c nb i) V_OUTOFF U64 0 = (wb_env b bl 0 0 c nb i, true).
+  Proof. unfold wb_env. evaluate. split; reflexivity. Qed.
+
+  Lemma wb_scalars_run b bl c nb i : 1 <= i < two64 ->
+    run (wb_env b bl 0 0 c nb i) wb_scalars = (wb_env b bl 16 16 ((c + 1) mod two64) nb (i - 1), true).
+  Proof. intros H. unfold wb_env, wb_scalars, two64 in *. evaluate. repeat f_equal; lia. Qed.
+
+  Lemma wb_offsets b bl c nb i :
+    get (wb_env b bl 16 16 c nb i) V_INOFF = (U64, 16%Z, true) /\
+    get (wb_env b bl 16 16 c nb i) V_OUTOFF = (U64, 16%Z, true).
+  Proof. unfold wb_env. evaluate. split; reflexivity. Qed.
+
+  Lemma wb_cond_eval b bl io oo c nb i : i < two64 ->
+    eval (wb_env b bl io oo c nb i) wb_cond = (S32, b2z (0 <? i), true).
+  Proof. intros H. unfold wb_env, two64 in *. evaluate. repeat f_equal; lia. Qed.
+
   Lemma ni_loop_eq nonce : forall n fuel b bl io oo c nb inp,
-    (S n <= fuel)%nat -> (16 * S n <= length inp)%nat -> N.of_nat (S n) < two64 -> c < two64 ->
+    (S n <= fuel)%nat -> (16 * S n <= length inp)%nat -> N.of_nat (S n) < two64 ->
     ni_loop E fuel nonce wb_bexpr wb_scalars (wb_env b bl io oo c nb (N.of_nat (S n))) inp =
-    let '(o, rest, c', arr) := Ref.bulk E n nonce c inp in
+    let '(o, rest, c', arr) := Ref.bulk E n nonce (c mod two64) inp in
     Ok (wb_env b bl 16 16 c' nb 0, o, rest, arr).
   Proof.
-    induction n as [|n IH]; intros fuel b bl io oo c nb inp Hfuel Hlen Hn Hc;
+    induction n as [|n IH]; intros fuel b bl io oo c nb inp Hfuel Hlen Hn;
       (destruct fuel as [|fuel]; [lia|]); cbn [ni_loop Ref.bulk];
-      destruct (skipn15_cons inp ltac:(lia)) as (x & r & ->); unfold two64 in *.
-    - unfold wb_env, wb_bexpr, wb_scalars. evaluate.
-      Show.
+      destruct (skipn15_cons inp ltac:(lia)) as (x & r & ->);
+      rewrite wb_bexpr_eval; destruct (wb_reset b bl io oo c nb (N.of_nat (S n))) as [-> H2];
+      cbn [fst snd]; rewrite H2; cbn [fst snd]; clear H2;
+      rewrite wb_scalars_run by lia; cbn [fst snd];
+      destruct (wb_offsets b bl ((c + 1) mod two64) nb (N.of_nat (S n) - 1)) as [-> ->];
+      rewrite wb_cond_eval by lia; cbv [def valZ valN fst snd]; rewrite nonzero_b2z.
+    - Show.
   Abort.
 End Bridge.
